@@ -447,7 +447,13 @@ def eval_monad_transpose(a):
                                  +[]  -->  []
 
     """
-    return bknp.transpose(bknp.asarray(a))
+    arr = bknp.asarray(a)
+    if arr.dtype == object and arr.ndim == 1 and len(arr) > 0 and all(bknp.isarray(x) for x in arr):
+        try:
+            arr = bknp.asarray(list(arr))  # a matrix held as a list of row arrays (e.g. a slice of a mixed list)
+        except ValueError:
+            pass
+    return bknp.transpose(arr)
 
 
 def eval_monad_undefined(a, backend):
